@@ -30,6 +30,10 @@ func init() {
 		for _, s := range tshapes {
 			add(map[string]interface{}{"op": "Transpose", "shape": s})
 		}
+		for _, s := range [][]int{{5, 6}, {5, 5}, {7, 9}} {
+			add(map[string]interface{}{"op": "Transpose", "shape": s, "dtype": "float32"})
+		}
+		add(map[string]interface{}{"op": "Transpose", "shape": []int{6, 5}, "dtype": "int64"})
 		// Concat
 		for _, c := range []struct {
 			shape []int
